@@ -199,7 +199,11 @@ struct MatchFinder<'a> {
 impl<'ast> Visit<'ast> for MatchFinder<'ast> {
     fn visit_expr_match(&mut self, m: &'ast syn::ExprMatch) {
         let s = norm(&m.expr);
-        if s.ends_with("local_state") || s.ends_with("local_state()") {
+        let tuple_first = match &*m.expr {
+            Expr::Tuple(t) => t.elems.first().map(|e| norm(e)),
+            _ => None,
+        };
+        if s.ends_with("local_state") || s.ends_with("local_state()") || tuple_first.map(|f| f.ends_with("local_state")).unwrap_or(false) {
             self.out.push(m);
             // nested matches on the state inside arms are not followed
             return;
@@ -411,6 +415,67 @@ pub fn emit_matches(src: &mut Sources, out: &mut Out, s: &mut String, enum_rust:
     s.push('\n');
 }
 
+/// does a `(state, bool)` pattern cover (variant, b)?
+fn covers2(enum_name: &str, pat: &Pat, variant: &str, b: bool) -> bool {
+    match pat {
+        Pat::Wild(_) => true,
+        Pat::Or(o) => o.cases.iter().any(|c| covers2(enum_name, c, variant, b)),
+        Pat::Paren(p) => covers2(enum_name, &p.pat, variant, b),
+        Pat::Tuple(t) if t.elems.len() == 2 => {
+            let second = norm(&t.elems[1]);
+            let second_ok = second == "_" || second == b.to_string();
+            covers(enum_name, &t.elems[0], variant) && second_ok
+        }
+        _ => false,
+    }
+}
+
+/// `match (&self.local_state, flag) { (State::X, true) => …, … }` as `State → Bool → Option State`
+pub fn emit_table2(src: &mut Sources, out: &mut Out, s: &mut String, enum_rust: &str, enum_lean: &str, variants: &[String], sel: &FnSel, lean_name: &str, index: usize, flag: &str) {
+    let file = match src.file(sel.file) {
+        Ok(f) => f,
+        Err(e) => {
+            out.errors.push(e);
+            return;
+        }
+    };
+    let found = match find_fn(file, sel) {
+        Ok(f) => f,
+        Err(e) => {
+            out.errors.push(e);
+            return;
+        }
+    };
+    let mut mf = MatchFinder { out: vec![] };
+    mf.visit_block(found.block);
+    let m = match mf.out.get(index) {
+        Some(m) => *m,
+        None => {
+            out.errors.push(format!("{:?}: no match #{} on (local_state, _)", sel, index));
+            return;
+        }
+    };
+    s.push_str(&format!("/-- `{}` in {}: state after, `none` = refused with an error -/\n", sel.name, sel.file));
+    s.push_str(&format!("def {} (s : {}) ({} : Bool) : Option {} :=\n  match s, {} with\n", lean_name, enum_lean, flag, enum_lean, flag));
+    for v in variants {
+        for b in [true, false] {
+            let arm = m.arms.iter().find(|a| a.guard.is_none() && covers2(enum_rust, &a.pat, v, b));
+            let n = match arm {
+                Some(a) => next_of(enum_rust, &a.body),
+                None => Err(format!("no arm covers ({}, {})", v, b)),
+            };
+            match n {
+                Ok(n) => s.push_str(&format!("  | .{}, {} => {}\n", lower_first(v), b, lean_next(enum_lean, v, &n))),
+                Err(e) => {
+                    out.errors.push(format!("{:?}: {}", sel, e));
+                    s.push_str(&format!("  | .{}, {} => none\n", lower_first(v), b));
+                }
+            }
+        }
+    }
+    s.push('\n');
+}
+
 pub fn generate(src: &mut Sources, out: &mut Out) {
     const STATES: &str = "fe2o3-amqp-types/src/states.rs";
     const CONN: &str = "fe2o3-amqp/src/connection/mod.rs";
@@ -491,6 +556,41 @@ pub fn generate(src: &mut Sources, out: &mut Out) {
         &svars,
         &[st("on_incoming_begin", "on_incoming_begin", 0), st("on_incoming_end", "on_incoming_end", 0), st("send_begin", "send_begin", 0), st("send_end", "send_end", 0)],
     );
-    s.push_str("end Sess\n\nend Amqp.Gen.Fsm\n");
+    const SENG: &str = "fe2o3-amqp/src/session/engine.rs";
+    let seng = |name: &'static str| FnSel { file: SENG, self_ty: Some("SessionEngine<S>"), trait_: None, name };
+    emit_arm_index(src, out, &mut s, "SessionState", "SState", &svars, &seng("end_session"), "end_session_arm", 0);
+    emit_arm_index(src, out, &mut s, "SessionState", "SState", &svars, &seng("on_outgoing_link_frames"), "on_outgoing_link_frames_arm", 0);
+    s.push_str("end Sess\n\n");
+    // link
+    const LSTATE: &str = "fe2o3-amqp/src/link/state.rs";
+    const LMOD: &str = "fe2o3-amqp/src/link/mod.rs";
+    let lvars = match src.file(LSTATE).ok().and_then(|f| enum_variants(f, "LinkState")) {
+        Some(v) => v,
+        None => {
+            out.errors.push("LinkState not found".into());
+            return;
+        }
+    };
+    emit_enum(&mut s, "LState", "LinkState", &lvars, LSTATE);
+    s.push_str("namespace Link\n\n");
+    let lsel = |name: &'static str| FnSel { file: LMOD, self_ty: Some("Link<R,T,F,M>"), trait_: Some("endpoint::LinkDetach"), name };
+    emit_tables(
+        src,
+        out,
+        &mut s,
+        "LinkState",
+        "LState",
+        &lvars,
+        &[
+            Table { sel: lsel("on_incoming_detach"), lean_name: "on_incoming_detach_closed", index: 0 },
+            Table { sel: lsel("on_incoming_detach"), lean_name: "on_incoming_detach_not_closed", index: 1 },
+        ],
+    );
+    emit_table2(src, out, &mut s, "LinkState", "LState", &lvars, &lsel("send_detach"), "send_detach", 0, "closed");
+    const SHARED: &str = "fe2o3-amqp/src/link/shared_inner.rs";
+    let shsel = |name: &'static str| FnSel { file: SHARED, self_ty: Some("T"), trait_: Some("LinkEndpointInnerDetach"), name };
+    emit_arm_index(src, out, &mut s, "LinkState", "LState", &lvars, &shsel("detach_with_error"), "detach_with_error_arm", 0);
+    emit_arm_index(src, out, &mut s, "LinkState", "LState", &lvars, &shsel("close_with_error"), "close_with_error_arm", 0);
+    s.push_str("end Link\n\nend Amqp.Gen.Fsm\n");
     out.write("Fsm.lean", &s);
 }
